@@ -38,6 +38,10 @@ def units(tier):
     add("D=2 cancel=1 cancel2=0 host already natively cancelled once", D=2, cancel=1, cancel2=0, pre_native=True, J=1, post0=True, shields=(False, False))
     add("D=1 deadline assigned before entry", D=1, deadlines=(0,), deadline_outside="before", native_after=False)
     add("D=1 deadline assigned after exit", D=1, deadlines=(0,), deadline_outside="after", native_after=False)
+    # a natively created task cancels its creator's scope right away (eager task factory: inside the creator's step)
+    for eager in (False, True):
+        for lv in (0, 1):
+            add("D=2 native child task cancels scope %d%s" % (lv, " eager" if eager else ""), D=2, native_child_cancel=lv, eager=eager, shields=(False, False), native_after=False)
     if not quick:
         add("D=3 cancel=1 cancel2=0 sym shields", D=3, cancel=1, cancel2=0, J=1, post0=True)
         add("D=3 cancel=2 cancel2=1 stubborn=2", D=3, cancel=2, cancel2=1, stubborn=2, shields=(False, False, False), J=1)
